@@ -60,6 +60,17 @@ theorem addWritten_mono (w : List String) (name n : String) :
   · simp [hm]
   · simpa using h
 
+theorem addWritten_sound (w : List String) (name n : String) :
+    (addWritten w name).contains n = true → w.contains n = true ∨ name = n := by
+  unfold addWritten
+  cases hw : w.contains name
+  · intro h
+    have h' : n = name ∨ n ∈ w := by simpa using h
+    rcases h' with h' | h'
+    · right; exact h'.symm
+    · left; simpa using h'
+  · intro h; left; simpa using h
+
 /-- names write-locked so far stay write-locked -/
 theorem exec_written_mono (fault : Option Nat) (p : Prog) (t : Tx) (n : String) :
     t.written.contains n = true → (exec fault p t).1.written.contains n = true := by
@@ -123,6 +134,24 @@ theorem exec_ok_disk (fault : Option Nat) (p : Prog) (t : Tx) :
       · simp [hf] at h
       · simp only [hf, if_false] at h ⊢
         rw [ih _ h]; simp [opsOf]
+    | check r ok => unfold exec at h ⊢; cases ok <;> simp_all [opsOf]
+    | index ok => unfold exec at h ⊢; cases ok <;> simp_all [opsOf]
+    | cache name v => unfold exec at h ⊢; rw [ih _ h]; simp [opsOf]
+
+/-- on success the call counter has advanced by the number of storage calls of the program -/
+theorem exec_ok_n (fault : Option Nat) (p : Prog) (t : Tx) :
+    (exec fault p t).2 = none → (exec fault p t).1.n = t.n + (opsOf p).length := by
+  induction p generalizing t with
+  | nil => simp [exec, opsOf]
+  | cons st rest ih =>
+    intro h
+    cases st with
+    | op o =>
+      unfold exec at h ⊢
+      by_cases hf : fault = some t.n
+      · simp [hf] at h
+      · simp only [hf, if_false] at h ⊢
+        rw [ih _ h]; simp [opsOf]; omega
     | check r ok => unfold exec at h ⊢; cases ok <;> simp_all [opsOf]
     | index ok => unfold exec at h ⊢; cases ok <;> simp_all [opsOf]
     | cache name v => unfold exec at h ⊢; rw [ih _ h]; simp [opsOf]
@@ -264,6 +293,47 @@ theorem exec_written_complete (fault : Option Nat) (p : Prog) (t : Tx) (n : Stri
       · exact exec_written_mono _ _ _ _ (addWritten_self _ _)
       · exact ih _ h hn
 
+/-- only caches the program writes (or that were write-locked before) are write-locked at the end -/
+theorem exec_written_sound (fault : Option Nat) (p : Prog) (t : Tx) (n : String) :
+    (exec fault p t).1.written.contains n = true →
+    t.written.contains n = true ∨ n ∈ (cacheWritesOf p).map (·.1) := by
+  induction p generalizing t with
+  | nil => intro h; left; simpa [exec] using h
+  | cons st rest ih =>
+    intro h
+    cases st with
+    | op o =>
+      unfold exec at h
+      by_cases hf : fault = some t.n
+      · left; simpa [hf] using h
+      · simp only [hf, if_false] at h
+        rcases ih _ h with h' | h'
+        · left; simpa using h'
+        · right; simpa [cacheWritesOf] using h'
+    | check r ok =>
+      unfold exec at h
+      cases ok
+      · left; simpa using h
+      · simp only [if_true] at h
+        rcases ih _ h with h' | h'
+        · left; exact h'
+        · right; simpa [cacheWritesOf] using h'
+    | index ok =>
+      unfold exec at h
+      cases ok
+      · left; simpa using h
+      · simp only [if_true] at h
+        rcases ih _ h with h' | h'
+        · left; exact h'
+        · right; simpa [cacheWritesOf] using h'
+    | cache name v =>
+      unfold exec at h
+      rcases ih _ h with h' | h'
+      · rcases addWritten_sound _ _ _ h' with h'' | h''
+        · left; exact h''
+        · right; simp [cacheWritesOf, h'']
+      · right; simp only [cacheWritesOf, List.map_cons, List.mem_cons]; right; exact h'
+
 /-- a cache that was written is present afterwards -/
 theorem lookup_foldl_setCache_isSome (ws : List (String × CacheVal)) (cs : Caches) (n : String) :
     ((lookupCache cs n).isSome = true ∨ n ∈ ws.map (·.1)) →
@@ -303,9 +373,22 @@ theorem C07_atomic_aux (s : Shard) (prog : Prog) (fault : Option Nat) :
   rcases r with ⟨t, e⟩
   cases e with
   | none =>
-    refine ⟨by intro e h; simp at h, fun _ => ⟨?_, ?_⟩⟩
-    · simpa [startTx] using hd rfl
-    · simpa [startTx] using hc rfl
+    by_cases hf : fault = some t.n
+    · -- the closure returned nil and the commit failed: same as any other error of `Write`
+      simp only [if_pos hf]
+      refine ⟨fun e _ => ⟨by first | rfl | trivial, ?_, ?_⟩, by intro h; simp at h⟩
+      · intro n hn
+        have hn' : t.written.contains n = true := hn
+        simp only [lookup_dropCaches, hn', if_true]
+      · intro n hn
+        have hn' : t.written.contains n = false := hn
+        have := hu n hn
+        simp only [lookup_dropCaches, hn', Bool.false_eq_true, if_false]
+        simpa [startTx] using this
+    · simp only [if_neg hf]
+      refine ⟨by intro e h; simp at h, fun _ => ⟨?_, ?_⟩⟩
+      · simpa [startTx] using hd rfl
+      · simpa [startTx] using hc rfl
   | some err =>
     refine ⟨fun e _ => ⟨rfl, ?_, ?_⟩, by intro h; simp at h⟩
     · intro n hn
@@ -348,7 +431,15 @@ theorem C07_error_observe_aux (s : Shard) (prog : Prog) (fault : Option Nat) (e 
   generalize exec fault prog (startTx s s.disk) = r at hk
   rcases r with ⟨t, e'⟩
   cases e' with
-  | none => intro h; simp at h
+  | none =>
+    by_cases hf : fault = some t.n
+    · simp only [if_pos hf]
+      intro _
+      simp only at hk ⊢
+      rw [hk.1, hk.2]
+      simp [startTx, dropCaches]
+    · simp only [if_neg hf]
+      intro h; simp at h
   | some err =>
     intro _
     simp only at hk ⊢
@@ -361,15 +452,100 @@ theorem C07_success_keeps_written_aux (s : Shard) (prog : Prog) (fault : Option 
   rw [((C07_atomic_aux s prog fault).2 h).2]
   exact lookup_foldl_setCache_isSome _ _ _ (Or.inr hn)
 
-theorem C07_fault_reports_error_aux (s : Shard) (prog : Prog) (k : Nat) (hk : k < (opsOf prog).length) :
+theorem C07_fault_reports_error_aux (s : Shard) (prog : Prog) (k : Nat) (hk : k ≤ (opsOf prog).length) :
     (runBatch s prog (some k)).2 ≠ none := by
-  have := exec_fault_errors k prog (startTx s s.disk) (by simp [startTx]) (by simpa [startTx] using hk)
+  have h1 := exec_fault_errors k prog (startTx s s.disk) (by simp [startTx])
+  have h2 := exec_ok_n (some k) prog (startTx s s.disk)
   unfold runBatch Disk.write txBody
-  generalize exec (some k) prog (startTx s s.disk) = r at this
+  generalize exec (some k) prog (startTx s s.disk) = r at h1 h2
   rcases r with ⟨t, e⟩
   cases e with
-  | none => simp at this
+  | none =>
+    -- the closure succeeded: no fault inside it, so k is the number of calls and the commit fails
+    have hn : t.n = (opsOf prog).length := by simpa [startTx] using h2 rfl
+    have hk' : k = (opsOf prog).length := by
+      rcases Nat.lt_or_ge k (opsOf prog).length with hlt | hge
+      · exact absurd rfl (h1 (by simpa [startTx] using hlt))
+      · omega
+    have hf : (some k : Option Nat) = some t.n := by rw [hk', hn]
+    simp only [if_pos hf]
+    simp
   | some err => simp
+
+/-- the commit fault on a program without failing steps: the closure returns nil, `Write` returns the
+commit error -/
+theorem commit_fault_outcome (s : Shard) (prog : Prog) (h : allChecksPass prog = true) :
+    closureOk s prog (some (opsOf prog).length) = true ∧
+    (runBatch s prog (some (opsOf prog).length)).2 = some (.commit (opsOf prog).length) := by
+  have h1 := exec_clean_ok (some (opsOf prog).length) prog (startTx s s.disk) h (by
+    intro k hk; right; cases hk; simp [startTx])
+  have h2 := exec_ok_n (some (opsOf prog).length) prog (startTx s s.disk) h1
+  refine ⟨by simp [closureOk, h1], ?_⟩
+  unfold runBatch Disk.write txBody
+  generalize exec (some (opsOf prog).length) prog (startTx s s.disk) = r at h1 h2
+  rcases r with ⟨t, e⟩
+  cases e with
+  | none =>
+    have hn : t.n = (opsOf prog).length := by simpa [startTx] using h2
+    have hf : (some (opsOf prog).length : Option Nat) = some t.n := by rw [hn]
+    simp only [if_pos hf]
+    simp [hn]
+  | some err => simp at h1
+
+/-- **the commit step fails** (fault position = number of storage calls) on a program all of whose
+steps succeed: the closure returns nil, `Write` returns the commit error, the disk is the pre-state,
+EVERY cache the program writes is gone from the manager and every other cache is as before -/
+theorem C07_commit_fault_atomic_aux (s : Shard) (prog : Prog) (h : allChecksPass prog = true) :
+    closureOk s prog (some (opsOf prog).length) = true ∧
+    (runBatch s prog (some (opsOf prog).length)).2 = some (.commit (opsOf prog).length) ∧
+    (runBatch s prog (some (opsOf prog).length)).1.disk = s.disk ∧
+    (∀ n, n ∈ (cacheWritesOf prog).map (·.1) →
+        lookupCache (runBatch s prog (some (opsOf prog).length)).1.caches n = none) ∧
+    (∀ n, n ∉ (cacheWritesOf prog).map (·.1) →
+        lookupCache (runBatch s prog (some (opsOf prog).length)).1.caches n = lookupCache s.caches n) := by
+  have ho := commit_fault_outcome s prog h
+  have ha := (C07_atomic_aux s prog (some (opsOf prog).length)).1 _ ho.2
+  have hc : (exec (some (opsOf prog).length) prog (startTx s s.disk)).2 = none := by
+    have := ho.1; unfold closureOk at this; simpa using this
+  refine ⟨ho.1, ho.2, ha.1, ?_, ?_⟩
+  · intro n hn
+    exact ha.2.1 n (exec_written_complete _ _ _ n hc hn)
+  · intro n hn
+    apply ha.2.2 n
+    cases hw : (writtenBy s prog (some (opsOf prog).length)).contains n with
+    | false => rfl
+    | true =>
+      rcases exec_written_sound _ _ _ n hw with h' | h'
+      · simp [startTx] at h'
+      · exact absurd h' hn
+
+/-- the variant that decides commit/abort of the cache transaction from "the closure reached its end"
+is NOT atomic: when the commit step fails the error is reported and the disk is rolled back, yet every
+cache the batch wrote is still in the manager -/
+theorem C07_commit_by_closure_flag_not_atomic_aux (s : Shard) (prog : Prog) (h : allChecksPass prog = true)
+    (n : String) (hn : n ∈ (cacheWritesOf prog).map (·.1)) :
+    (runBatchByClosureFlag s prog (some (opsOf prog).length)).2 = some (.commit (opsOf prog).length) ∧
+    (runBatchByClosureFlag s prog (some (opsOf prog).length)).1.disk = s.disk ∧
+    (lookupCache (runBatchByClosureFlag s prog (some (opsOf prog).length)).1.caches n).isSome = true := by
+  have h1 := exec_clean_ok (some (opsOf prog).length) prog (startTx s s.disk) h (by
+    intro k hk; right; cases hk; simp [startTx])
+  have h2 := exec_ok_n (some (opsOf prog).length) prog (startTx s s.disk) h1
+  have h3 := exec_ok_caches (some (opsOf prog).length) prog (startTx s s.disk) h1
+  unfold runBatchByClosureFlag Disk.write txBody
+  generalize exec (some (opsOf prog).length) prog (startTx s s.disk) = r at h1 h2 h3
+  rcases r with ⟨t, e⟩
+  cases e with
+  | none =>
+    have hn' : t.n = (opsOf prog).length := by simpa [startTx] using h2
+    have hf : (some (opsOf prog).length : Option Nat) = some t.n := by rw [hn']
+    simp only [if_pos hf]
+    refine ⟨by simp [hn'], by first | rfl | trivial, ?_⟩
+    simp only [Option.isNone_none, if_true]
+    have h3' : t.caches = (cacheWritesOf prog).foldl (fun cs e => setCache cs e.1 e.2) s.caches := by
+      simpa [startTx] using h3
+    rw [h3']
+    exact lookup_foldl_setCache_isSome _ _ _ (Or.inr hn)
+  | some err => simp at h1
 
 theorem C07_rejection_reports_error_aux (s : Shard) (prog : Prog) (fault : Option Nat)
     (h : allChecksPass prog = false) : (runBatch s prog fault).2 ≠ none := by
@@ -382,15 +558,20 @@ theorem C07_rejection_reports_error_aux (s : Shard) (prog : Prog) (fault : Optio
   | some err => simp
 
 theorem C07_clean_run_succeeds_aux (s : Shard) (prog : Prog) (fault : Option Nat)
-    (h : allChecksPass prog = true) (hf : ∀ k, fault = some k → (opsOf prog).length ≤ k) :
+    (h : allChecksPass prog = true) (hf : ∀ k, fault = some k → (opsOf prog).length < k) :
     (runBatch s prog fault).2 = none := by
   have := exec_clean_ok fault prog (startTx s s.disk) h (by
-    intro k hk; right; simpa [startTx] using hf k hk)
+    intro k hk; right; have := hf k hk; simp [startTx]; omega)
+  have h2 := exec_ok_n fault prog (startTx s s.disk) this
   unfold runBatch Disk.write txBody
-  generalize exec fault prog (startTx s s.disk) = r at this
+  generalize exec fault prog (startTx s s.disk) = r at this h2
   rcases r with ⟨t, e⟩
   cases e with
-  | none => simp
+  | none =>
+    have hn : t.n = (opsOf prog).length := by simpa [startTx] using h2
+    have hne : ¬ (fault = some t.n) := by
+      intro hc; have := hf _ hc; omega
+    simp only [if_neg hne]
   | some err => simp at this
 
 theorem C07_entry_points_atomic_aux (s : Shard) (maxSize : Nat) (ins : List InsItem) (upd : List UpdItem)
@@ -421,7 +602,10 @@ theorem C07_crash_is_write_branch_assumed_aux (s : Shard) (prog : Prog) (cp : Cr
     generalize exec (some k) prog (startTx s s.disk) = r at this
     rcases r with ⟨t, e⟩
     cases e with
-    | none => right; exact this rfl
+    | none =>
+      by_cases hf : (some k : Option Nat) = some t.n
+      · left; simp only [if_pos hf]
+      · right; simp only [if_neg hf]; exact this rfl
     | some err => left; rfl
   | beforeCommit => left; simp [crashBatch, Disk.write]
   | afterCommit =>
@@ -430,7 +614,9 @@ theorem C07_crash_is_write_branch_assumed_aux (s : Shard) (prog : Prog) (cp : Cr
     generalize exec none prog (startTx s s.disk) = r at this
     rcases r with ⟨t, e⟩
     cases e with
-    | none => right; exact this rfl
+    | none =>
+      have hf : ¬ ((none : Option Nat) = some t.n) := by simp
+      right; simp only [if_neg hf]; exact this rfl
     | some err => left; rfl
 
 end Sema.C07
